@@ -19,6 +19,7 @@ pub enum Tier {
 
 #[derive(Clone, Debug)]
 pub struct Violation {
+    pub sweep: String,
     pub check: String,
     pub index: u64,
     pub msg: String,
@@ -38,6 +39,7 @@ pub struct Loc {
     cur_failed: bool,
     want_sample: bool,
     viol_cap: usize,
+    per_site: BTreeMap<String, usize>,
     pub viol_total: u64,
 }
 
@@ -55,7 +57,8 @@ impl Loc {
             cur_nontrivial: false,
             cur_failed: false,
             want_sample: false,
-            viol_cap: 20,
+            viol_cap: 3,
+            per_site: BTreeMap::new(),
             viol_total: 0,
         }
     }
@@ -106,28 +109,25 @@ impl Loc {
         }
     }
     pub fn fail(&mut self, msg: String) {
+        let site = self.cur_check.clone();
+        self.record(site, msg);
+    }
+    /// keep the first `viol_cap` violations PER SITE (per worker), so that one noisy
+    /// site cannot crowd out another
+    fn record(&mut self, site: String, msg: String) {
         self.cur_failed = true;
         self.viol_total += 1;
-        if self.viol.len() < self.viol_cap {
-            self.viol.push(Violation {
-                check: self.cur_check.clone(),
-                index: self.cur_index,
-                msg,
-            });
+        let c = self.per_site.entry(site.clone()).or_insert(0);
+        if *c < self.viol_cap {
+            *c += 1;
+            self.viol.push(Violation { sweep: self.cur_check.clone(), check: site, index: self.cur_index, msg });
         }
     }
     /// Like `fail` but filed under a sub-check name (call site), so that known
     /// findings can be keyed by call site.
     pub fn fail_at(&mut self, site: &str, msg: String) {
-        self.cur_failed = true;
-        self.viol_total += 1;
-        if self.viol.len() < self.viol_cap {
-            self.viol.push(Violation {
-                check: format!("{}/{}", self.cur_check, site),
-                index: self.cur_index,
-                msg,
-            });
-        }
+        let site = format!("{}/{}", self.cur_check, site);
+        self.record(site, msg);
     }
     pub fn check_at(&mut self, site: &str, ok: bool, msg: impl FnOnce() -> String) -> bool {
         self.ops += 1;
@@ -195,6 +195,8 @@ fn panic_msg(p: Box<dyn std::any::Any + Send>) -> String {
 
 thread_local! {
     pub static LAST_PANIC_LOC: std::cell::RefCell<String> = std::cell::RefCell::new(String::new());
+    /// set while a case runs under catch_unwind: panics are results there, noise is suppressed
+    pub static QUIET_PANICS: std::cell::Cell<bool> = std::cell::Cell::new(false);
 }
 
 impl Ctx {
@@ -217,9 +219,7 @@ impl Ctx {
                 "--replay" => {
                     let txt = std::fs::read_to_string(&args[i + 1]).expect("replay file");
                     let v: Value = serde_json::from_str(&txt).expect("replay json");
-                    let c = v["check"].as_str().unwrap().to_string();
-                    // the sweep name is the part before the first '/'
-                    let sweep = c.split('/').next().unwrap().to_string();
+                    let sweep = v["sweep"].as_str().unwrap().to_string();
                     replay = Some((sweep, v["index"].as_u64().unwrap()));
                     i += 1;
                 }
@@ -248,6 +248,9 @@ impl Ctx {
         // library panics are results, not noise
         std::panic::set_hook(Box::new(|info| {
             let loc = info.location().map(|l| format!("{}:{}", l.file(), l.line())).unwrap_or_default();
+            if !QUIET_PANICS.with(|q| q.get()) {
+                eprintln!("MACHINERY-ERROR: harness panic outside a case at {loc}: {info}");
+            }
             LAST_PANIC_LOC.with(|c| *c.borrow_mut() = loc);
         }));
         Ctx {
@@ -359,6 +362,7 @@ impl Ctx {
             for _ in 0..nthreads {
                 s.spawn(|| {
                     let mut loc = Loc::new(name);
+                    QUIET_PANICS.with(|q| q.set(true));
                     loop {
                         if stop.load(Ordering::Relaxed) {
                             break;
@@ -463,7 +467,12 @@ impl Ctx {
     }
     pub fn add_violation(&mut self, check: &str, index: u64, msg: String) {
         self.viol_total += 1;
-        self.violations.push(Violation { check: check.to_string(), index, msg });
+        let sweep = check.split('/').next().unwrap_or(check).to_string();
+        self.violations.push(Violation { sweep, check: check.to_string(), index, msg });
+    }
+    pub fn add_violation_in(&mut self, sweep: &str, check: &str, index: u64, msg: String) {
+        self.viol_total += 1;
+        self.violations.push(Violation { sweep: sweep.to_string(), check: check.to_string(), index, msg });
     }
     pub fn add_sample(&mut self, check: &str, s: String) {
         if self.samples.len() < 60 {
@@ -532,7 +541,7 @@ impl Ctx {
             .violations
             .iter()
             .take(50)
-            .map(|v| json!({"check": v.check, "index": v.index, "msg": v.msg}))
+            .map(|v| json!({"sweep": v.sweep, "check": v.check, "index": v.index, "msg": v.msg}))
             .collect();
         let ev = json!({
             "property_id": self.property,
@@ -599,10 +608,11 @@ impl Ctx {
                     v.check.replace(['/', ' ', ':'], "_"),
                     v.index
                 );
-                let rec = json!({"property": self.property, "check": v.check, "index": v.index, "msg": v.msg,
+                let rec = json!({"property": self.property, "sweep": v.sweep, "check": v.check, "index": v.index, "msg": v.msg,
                     "tier": if self.tier == Tier::Quick {"quick"} else {"thorough"}});
                 let _ = std::fs::write(&fname, serde_json::to_string_pretty(&rec).unwrap());
-                println!("  violation: check={} index={} {}", v.check, v.index, v.msg);
+                let short: String = v.msg.chars().take(700).collect();
+                println!("  violation: check={} index={} {}", v.check, v.index, short);
                 println!("VIOLATION property={} replay={}", self.property, fname);
             }
             return 1;
